@@ -15,7 +15,7 @@ RULE = ("case = event sequence over <=5 scopes and <=4 tasks where every scope o
         "pool (agreeing and disagreeing: too few / too many / ill-typed arguments, malformed directives, '%%', no arguments) plus "
         "random formats over the alphabet {% s d r q z [ ] = /}, optional exception; records captured by handlers on the "
         "supplied loggers and on the root logger (a record whose message cannot be built is lost through Handler.handleError); "
-        "quick ~2500 sequences + corpus, thorough 16x5000; non-trivial = >=2 nested scopes, >=1 log call with arguments inside a "
+        "quick ~6000 sequences + corpus, thorough 16x5000; non-trivial = >=2 nested scopes, >=1 log call with arguments inside a "
         "scope nested in another AND (an inherited trace id or logger is exercised: some ancestor sets what the logging scope does "
         "not); distinct = by case text")
 TRUSTED = ["Python logging (Logger.log, LogRecord.getMessage, propagation to the root logger) as exercised, modelled by Haiway/Model/Logs.lean",
@@ -248,7 +248,7 @@ def sample(rng) -> str | None:
 
 
 def generate(rng, tier):
-    n = 2500 if tier == "quick" else 16 * 5000
+    n = 6000 if tier == "quick" else 16 * 5000
     for _ in range(n):
         c = sample(rng)
         if c:
